@@ -60,8 +60,20 @@ func c17ConfigYAML(row C17Row, b *c17Builder, seed int64, phase int) string {
 	if row.S("resolver") != "none" && (row.B("omit_template_comment") || coin("otc")) {
 		w("  omit_template_comment: %v\n", row.B("omit_template_comment"))
 	}
-	if mode == "mixed" || (mode == "bound" && phase == 2) {
-		w("autobind:\n  - \"%s/hand\"\n", b.base)
+	// autobind: the package of hand-written models (mixed / bound) and, with autobindModel, the MODEL OUTPUT
+	// PACKAGE itself (graph/model; for models = bound the first pass generates into hand, so it is hand there)
+	var ab []string
+	if mode == "mixed" || (mode == "bound" && (phase == 2 || row.B("autobindModel"))) {
+		ab = append(ab, b.base+"/hand")
+	}
+	if row.B("autobindModel") && mode != "bound" {
+		ab = append(ab, b.base+"/graph/model")
+	}
+	if len(ab) > 0 {
+		w("autobind:\n")
+		for _, p := range ab {
+			w("  - %q\n", p)
+		}
 	}
 	if row.B("struct_tag") {
 		w("struct_tag: json\n")
@@ -191,6 +203,32 @@ const (
 )
 `
 	}
+	// the model output package holds hand-written Go next to models_gen.go
+	mpkg, mname := c17ModelPkg(row)
+	if row.B("autobindModel") || b.needHand["inmodel"] {
+		// an autobound package must exist (and hold a Go file) before the first generation
+		out[mpkg+"/doc.go"] = "// Package " + mname + " holds the hand-written models; gqlgen writes models_gen.go next to this file.\npackage " + mname + "\n"
+	}
+	if b.needHand["inmodel"] {
+		label := "Label *string" + tag("label")
+		if row.B("struct_tag") {
+			label = "Caption *string" + tag("label")
+		}
+		out[mpkg+"/handkept.go"] = fmt.Sprintf(`package %s
+
+// HandKept is maintained by hand next to the generated models; the GraphQL type HandKept binds to it
+// (through autobind of this package, or through an explicit models: entry).
+type HandKept struct {
+	ID     string%s
+	%s
+	Amount int%s
+	notes  []string
+}
+
+// Total is bound to the GraphQL field total.
+func (h *HandKept) Total() int { return h.Amount + len(h.notes) }
+`, mname, tag("id"), label, tag("amount"))
+	}
 	if b.needHand["mixed"] {
 		var sb strings.Builder
 		sb.WriteString("package hand\n\nimport (\n\t\"context\"\n\t\"fmt\"\n\t\"io\"\n\t\"strconv\"\n)\n\n")
@@ -251,15 +289,26 @@ type C17Project struct {
 	Quirks     C17Quirks
 	Files      map[string]string // relative path -> content (phase-0/1 gqlgen.yml)
 	YAML2      string            // second-pass gqlgen.yml (models = bound), else ""
+	// GraphQL type -> fields with `resolver: true` in the models: block (renderer self-check)
+	ResolverFields map[string][]string `json:"-"`
 }
 
-var c17OwnedHand = []string{"hand/mine.go", "hand/ext.go", "hand/level.go", "hand/core.go"}
+var c17OwnedHand = []string{"hand/mine.go", "hand/ext.go", "hand/level.go", "hand/core.go", "hand/doc.go", "hand/handkept.go",
+	"graph/model/doc.go", "graph/model/handkept.go"}
+
+// c17ModelPkg: directory (relative to the project root) and package name of the model output package.
+func c17ModelPkg(row C17Row) (dir, name string) {
+	if row.S("models") == "bound" {
+		return "hand", "hand" // the first pass generates the models into package hand
+	}
+	return "graph/model", "model"
+}
 
 // C17Render renders the project of a row (nothing is written).
 func C17Render(root, importBase string, row C17Row, seed int64, nfiles int) *C17Project {
 	quirks := row.Quirks()
 	b := c17BuildSchema(row, seed, importBase)
-	p := &C17Project{Root: root, Base: importBase, Row: row, Seed: seed, NFiles: nfiles, Quirks: quirks, Files: map[string]string{}}
+	p := &C17Project{Root: root, Base: importBase, Row: row, Seed: seed, NFiles: nfiles, Quirks: quirks, Files: map[string]string{}, ResolverFields: b.resolverFields}
 	for k, v := range b.SDLFiles(nfiles) {
 		p.Files[k] = v
 	}
@@ -522,8 +571,11 @@ func C17FixedRows() []C17Row {
 		return r
 	}
 	all := mk(func(string) bool { return true })
+	// autobind of the model output package: with (all) and without (even) a hand-written model in it;
+	// odd binds the hand-written model by an explicit models: entry
+	all["autobindModel"] = true
 	even := mk(func(f string) bool { return len(f)%2 == 0 })
-	even["execFollow"], even["resolver"] = true, "follow"
+	even["execFollow"], even["resolver"], even["autobindModel"] = true, "follow", true
 	odd := mk(func(f string) bool { return len(f)%2 == 1 })
 	odd["use_function_syntax_for_execution_context"], odd["worker_limit"] = true, 2
 	return []C17Row{all, even, odd}
